@@ -46,6 +46,9 @@ def monitor(b, vals, obs):
                 sites.append((name, s["m"], s.get("arg")))
             elif s["k"] == "trans":
                 walk(s["name"], s["block"])
+            elif s["k"] in ("if", "switch", "fsm"):
+                for a in s.get("alts", []) + s.get("cases", []) + s.get("states", []):
+                    walk(name, a["items"])
 
     # leaves define no calls; connects are elaborated after the items: site order = order of the items' calls
     from ..core.simulgen import flat_items
@@ -146,6 +149,15 @@ def directed() -> list[dict]:
                        ("switch", {"k": "switch", "sel": [2, 3], "cases": [{"pat": 2, "items": [wr]}, {"pat": None, "items": []}]})):
         out.append({"nin": 4, "dins": [2], "leaves": [], "connects": [{"name": "cn0", "w": 2, "rw": 0}],
                     "items": [guard, rd], "simul": [], "tag": f"c13:directed-guarded-{tag}", "expect": "ok"})
+    # T --enable_call--> M2{nested N0 simultaneous with M2, N0 -> M1}, M1 -> M0{nested N1 simultaneous with M0}
+    out.append({"nin": 4, "dins": [], "leaves": [], "connects": [],
+                "items": [{"k": "method", "name": "M0", "ready": None, "nx": 0, "block": [
+                              {"k": "trans", "name": "N1", "ready": 0, "block": []}]},
+                          {"k": "method", "name": "M1", "ready": None, "nx": 0, "block": [_call("M0")]},
+                          {"k": "method", "name": "M2", "ready": None, "nx": 0, "block": [
+                              {"k": "trans", "name": "N0", "ready": 1, "block": [_call("M1")]}]},
+                          {"k": "trans", "name": "T0", "ready": 2, "block": [_call("M2", en=3)]}],
+                "simul": [["M2", "N0"], ["M0", "N1"]], "tag": "c13:directed-nested-deep", "expect": "ok"})
     # simultaneous() declared between two methods that both get their definition through provide()
     out.append({"nin": 2, "dins": [], "leaves": [], "connects": [],
                 "items": [{"k": "method", "name": "M0", "ready": None, "nx": 0, "block": []},
